@@ -1,10 +1,11 @@
 #!/bin/bash
 # tools/seedconfirm.sh <seed dir with patch.diff + demo_test.go> <demo target dir (repo-relative)> <-run regex> [extra go test flags, e.g. -race]
+# SEED_BASE=<commit> confirms against the commit the seed was written for (default HEAD).
 # Confirms in a scratch worktree of /repo: (1) suite passes with the change, (2) demo fails with it, (3) demo passes without it.
 set -u
 sd=$1; target=$2; runre=$3; extra=${4:-}
 wt=/tmp/confirm_$$
-git -C /repo worktree add -q --detach $wt HEAD || exit 2
+git -C /repo worktree add -q --detach $wt ${SEED_BASE:-HEAD} || exit 2
 trap 'git -C /repo worktree remove --force '$wt' >/dev/null 2>&1; rm -rf '$wt EXIT
 export GOFLAGS=-mod=mod GOPROXY=off
 cd $wt
